@@ -238,6 +238,53 @@ static void compaction_cases(vf_rng *r, uint64_t seed) {
     }
     vf_buf_free(cells);
 }
+/* sets that compact through several rounds, down to resolution 0: whole resolutions, six or seven complete base cells (a
+ * pentagon among them), and disks expanded by one or two levels (complete sibling groups at more than one level, with
+ * partial ones around them).  The last rounds of compactCells allocate and free scratch like the first, but run on few cells. */
+static void compaction_big(int kind, uint64_t seed) {
+    vf_rng cr;
+    vf_rng_seed(&cr, seed);
+    int zero[15] = {0};
+    int64_t cap = 60000, m = 0;
+    H3Index *cells = vf_buf_new((size_t)cap * 8, 0);
+    ref_child_iter it;
+    char what[160];
+    int res = 1;
+    if (kind <= 3) {
+        res = kind == 0 || kind == 1 ? 1 : 2;
+        int first = kind == 1 ? (int)vf_below(&cr, 116) : kind == 2 ? (int)vf_below(&cr, 115) : 0, nbc = kind == 1 ? 6 : kind == 2 ? 7 : 122;
+        if (kind == 1 || kind == 2) first = first < 4 ? first : REF_PENT_BC[vf_below(&cr, 11)] - (int)vf_below(&cr, (uint64_t)nbc); /* a pentagon base cell among them */
+        if (first < 0) first = 0;
+        if (first + nbc > 122) first = 122 - nbc;
+        for (int bc = first; bc < first + nbc; bc++)
+            for (ref_child_iter_init(&it, vf_make_cell(0, bc, zero), res); !it.done && m < cap; ref_child_iter_next(&it)) cells[m++] = it.h;
+        snprintf(what, sizeof what, "%" PRId64 " cells: all res-%d descendants of base cells %d..%d", m, res, first, first + nbc - 1);
+    } else {
+        int k = kind == 4 ? 8 : 6, up = kind == 4 ? 1 : 2;
+        res = up + 3 + (int)vf_below(&cr, 9);
+        H3Index o = vf_below(&cr, 4) ? vf_rand_cell(&cr, res - up) : vf_make_cell(res - up, REF_PENT_BC[vf_below(&cr, 12)], zero);
+        int64_t sz;
+        maxGridDiskSize(k, &sz);
+        H3Index *d = calloc((size_t)sz, 8);
+        if (!gridDisk(o, k, d))
+            for (int64_t i = 0; i < sz; i++)
+                if (d[i])
+                    for (ref_child_iter_init(&it, d[i], res); !it.done && m < cap; ref_child_iter_next(&it)) cells[m++] = it.h;
+        free(d);
+        snprintf(what, sizeof what, "%" PRId64 " cells: the res-%d descendants of gridDisk(%016" PRIx64 ", %d)", m, res, o, k);
+    }
+    for (int64_t i = m - 1; i > 0; i--) {
+        int64_t j = (int64_t)vf_below(&cr, (uint64_t)i + 1);
+        H3Index t = cells[i];
+        cells[i] = cells[j];
+        cells[j] = t;
+    }
+    call_t c = {K_COMPACT, cells, m, 0, 0, NULL, res, 0, 0};
+    vf_case("compactbig %d %016" PRIx64, kind, seed);
+    if (m > 0) fault_case(&c, what);
+    vf_add("compaction.multi_round_sets", 1);
+    vf_buf_free(cells);
+}
 static void disk_cases(H3Index o, int k) {
     char what[96];
     call_t c = {K_DISK, NULL, k, o, 0, NULL, 0, 0, 0};
@@ -466,6 +513,11 @@ static void run(void) {
     }
     int nc = VF_T(60, 600);
     for (int i = 0; i < nc; i++) compaction_cases(&r, vf_u64(&r));
+    for (int kind = 0; kind < 6; kind++)
+        for (int i = 0; i < (kind == 0 || kind == 3 ? 1 : VF_T(2, 12)); i++) {
+            uint64_t sd = vf_u64(&r);
+            if (VF_MINE(kind * 16 + i)) compaction_big(kind, sd);
+        }
     /* disks and neighbour pairs around every pentagon at several resolutions */
     for (int res = 0; res <= 15; res++)
         for (int p = 0; p < 12; p++) {
@@ -510,7 +562,10 @@ static void replay(const char *spec) {
     vf_rng r;
     vf_rng_seed(&r, 1);
     load_ref();
-    if (sscanf(spec, "compact %" SCNx64, &a) == 1)
+    int kd;
+    if (sscanf(spec, "compactbig %d %" SCNx64, &kd, &a) == 2)
+        compaction_big(kd, a);
+    else if (sscanf(spec, "compact %" SCNx64, &a) == 1)
         compaction_cases(&r, a);
     else if (sscanf(spec, "disk %" SCNx64 " %d", &a, &k) == 2 || sscanf(spec, "diskdist %" SCNx64 " %d", &a, &k) == 2)
         disk_cases(a, k);
